@@ -135,13 +135,13 @@ PROPS = {
     },
     "C15": {
         "title": "AsyncReader is cancellation-safe",
-        "bounds": "ONE inductive step: from every reader state satisfying the representation invariant Inv (ReadLen(b,o), o<=4, b[..o] = frame prefix bytes | ReadVal(o), buffer.len()==declared, "
+        "bounds": "ONE inductive step (one harness per Inv state family and offset: ReadLen o=0..4, ReadVal o=0..2): from every reader state satisfying the representation invariant Inv (ReadLen(b,o), o<=4, b[..o] = frame prefix bytes | ReadVal(o), buffer.len()==declared, "
                   "buffer[..o] = payload bytes; source positioned at exactly the bytes accounted for), built through the cfg(minicbor_verif) hook, one read() future is created, polled ONCE and dropped; "
                   "every inner source read answers Pending / transient error / EOF / 1 byte / up to 4 bytes (<= 2 completed reads per poll); frame = 2-byte payload, EOF point symbolic. "
                   "Post: value == frame value & source behind the frame & fresh state | Pending/transient error => Inv again | EOF inside => UnexpectedEof | clean end only at a boundary. Base case: new() satisfies Inv",
         "outside": "the lifting from one step to poll/drop schedules of any length is an induction ARGUMENT (post-states are Inv states, which are all covered as pre-states), not a query; payloads > 2 bytes; > 2 completed reads in one poll",
         "assumptions": ["Vec::resize replaced by a fixed-capacity growth model", "hook: cfg(minicbor_verif) __verif_from_parts/__verif_state (add-only)"],
-        "groups": [io(["c15::c15_"], timeout={"quick": 2400, "thorough": 3600}, mem_gb={"quick": 24, "thorough": 24}, jobs={"quick": 2, "thorough": 2})],
+        "groups": [io(["c15::c15_"], timeout={"quick": 2400, "thorough": 3600}, mem_gb={"quick": 16, "thorough": 24}, jobs={"quick": 4, "thorough": 4})],
     },
     "C16": {
         "title": "AsyncWriter delivers whole frames in order under short writes and cancel+sync",
